@@ -475,6 +475,38 @@ def run_case(res, case):
                 ops_checked.append("make_ggnvp")
             else:
                 res["counters"]["hessian_reference_irregular"] = res["counters"].get("hessian_reference_irregular", 0) + 1
+            # --- the SAME object passed at several positions (round 9): an operator selects its argument by
+            # POSITION, so op(h, k)(x, x, x) must equal op(h, k) on three distinct copies, bit for bit, for
+            # every k (an identity-based substitution differentiates all aliased positions at once)
+            def h_al(p_, q_, r_):
+                return anp.sum(anp.sin(p_) * 1.5 + q_ * q_ * 0.25 + anp.exp(0.3 * r_) * q_)
+
+            xs_al = x0 if case.get("xkind") != "pyfloat" else float(x0)
+            def cp_al(z):  # an equal value held by a DIFFERENT object
+                if isinstance(z, onp.ndarray):
+                    return onp.array(z, copy=True)
+                if isinstance(z, onp.generic):
+                    return type(z)(z.item())
+                return float.fromhex(float(z).hex())
+
+            for k_al in (0, 1, 2, (0, 2), [1, 0]) if onp.isrealobj(x0) else ():
+                for oname, opf in (("grad", grad), ("value_and_grad", value_and_grad), ("jacobian", jacobian), ("elementwise_grad", elementwise_grad)):
+                    if isinstance(k_al, (tuple, list)) and oname in ("jacobian", "elementwise_grad"):
+                        continue
+                    r_same = opf(h_al, k_al)(xs_al, xs_al, xs_al)
+                    r_dist = opf(h_al, k_al)(cp_al(xs_al), cp_al(xs_al), cp_al(xs_al))
+                    if not common.values_equal_nan(r_same, r_dist):
+                        return viol("wrong_value", "%s(h, %r)(x, x, x) with one object at three positions differs from the call on three copies: %s vs %s" % (oname, k_al, common.brief(r_same), common.brief(r_dist)), oname + ":aliased_positions")
+                if isinstance(k_al, int):
+                    va, _ = make_vjp(h_al, k_al)(xs_al, xs_al, xs_al)
+                    vd, _ = make_vjp(h_al, k_al)(cp_al(xs_al), cp_al(xs_al), cp_al(xs_al))
+                    ra, rd = va(1.0), vd(1.0)
+                    _, ta = make_jvp(h_al, k_al)(xs_al, xs_al, xs_al)(onp.ones(onp.shape(xs_al)) if isinstance(xs_al, onp.ndarray) else 1.0)
+                    _, td = make_jvp(h_al, k_al)(cp_al(xs_al), cp_al(xs_al), cp_al(xs_al))(onp.ones(onp.shape(xs_al)) if isinstance(xs_al, onp.ndarray) else 1.0)
+                    if not common.values_equal_nan(ra, rd) or not common.values_equal_nan(ta, td):
+                        return viol("wrong_value", "make_vjp/make_jvp(h, %r)(x, x, x) with one object at three positions differs from the call on three copies" % (k_al,), "make_vjp:aliased_positions")
+            if onp.isrealobj(x0):
+                ops_checked.append("aliased_positions")
         except Exception as e:
             return viol("exception:" + type(e).__name__, traceback.format_exc()[-500:], ops_checked[-1] + "+1" if ops_checked else "first")
     k = sig_key(sig)
